@@ -12,6 +12,7 @@ Three parts (DESIGN.md §6 C16):
     stream compares the real code against, call by call, with snapshots of every argument, rule and context.
 -/
 import Schc.Proofs.Purity
+import Schc.Proofs.BufSeq
 import Schc.Gen.MutationSites
 
 namespace Schc
@@ -27,6 +28,29 @@ theorem C16_pure_xor (a b r b' : Buf) (h : Buf.bxor a b = .ok (r, b')) : b' = b 
 theorem C16_pure_eq (a b : Buf) (v : Bool) (b' : Buf) (h : Buf.eq a b = .ok (v, b')) : b' = b := Buf.eq_pure a b v b' h
 theorem C16_pure_hash (b : Buf) (k : List Nat) (b' : Buf) (h : b.hashKey = .ok (k, b')) : b' = b := Buf.hashKey_pure b k b' h
 theorem C16_pure_add (a b r a' b' : Buf) (h : Buf.add a b = .ok (r, a', b')) : a' = a ∧ b' = b := Buf.add_pure a b r a' b' h
+
+/-! ### part 1b — one Buffer through a history of observations and in-place changes -/
+
+/-- any sequence of `value()`, hash, iteration, `len`, `==`, slices, slice assignments, in-place shifts and in-place
+    pads on a Buffer the constructor returned behaves like the same sequence on the bit list (`aseq`): every
+    observation is the one the bits spelled so far give, the Buffer stays canonical -/
+theorem C16_buffer_sequence (a : ABuf) (ops : List BOp) (h : SeqOK a ops) :
+    cseq (Buf.ofABuf a) ops = .ok (Buf.ofABuf (aseq a ops).1, (aseq a ops).2) := cseq_sim a ops h
+
+/-- results independent of history, for Buffers: after two histories that spell the same bits on the same side, every
+    further sequence of operations returns the same observations -/
+theorem C16_buffer_history (a₁ a₂ : ABuf) (h₁ h₂ ops : List BOp) (ok₁ : SeqOK a₁ (h₁ ++ ops)) (ok₂ : SeqOK a₂ (h₂ ++ ops))
+    (same : (aseq a₁ h₁).1 = (aseq a₂ h₂).1) :
+    (cseq (Buf.ofABuf a₁) (h₁ ++ ops)).map (fun r => r.2.drop h₁.length) =
+    (cseq (Buf.ofABuf a₂) (h₂ ++ ops)).map (fun r => r.2.drop h₂.length) :=
+  history_independent a₁ a₂ h₁ h₂ ops ok₁ ok₂ same
+
+/-- non-vacuity: hash, overwrite bits 0..3, hash again, shift, value — on a 13-bit right-padded Buffer -/
+example :
+    let a : ABuf := ⟨[true, false, true, true, false, false, true, false, true, true, true, false, true], .right⟩
+    let ops := [BOp.hash, .setRange 0 3 ⟨[false, false], .left⟩, .hash, .shiftIn 2, .value, .padIn .left, .iter]
+    SeqOK a ops ∧ (aseq a ops).1 = ⟨[false, false, true, false, false, true, false, true, true, true], .left⟩ := by
+  refine ⟨⟨trivial, ⟨by decide, by decide⟩, trivial, trivial, trivial, trivial, trivial, trivial⟩, by decide⟩
 
 /-- slicing, iteration, inversion, copy and chunking are modelled as functions that cannot assign to their
     operand; that buffer.py contains no other assignment is obligation `C16_buffer_writes` -/
